@@ -1,4 +1,4 @@
-SPECIFICATION Spec
+SPECIFICATION SpecFb
 CONSTANTS
   MaxSteps = 12
   MaxCycles = 5
@@ -8,7 +8,7 @@ CONSTANTS
   EnableDebugWrites = TRUE
   SrcVals = {0, 3, 129, 255}
   Dts = {1, 2, 3, 5, 7}
-  CfgSel = "base"
+  CfgSel = "fb"
 VIEW View
 CHECK_DEADLOCK FALSE
 INVARIANTS
